@@ -92,6 +92,15 @@ def gen(rng, tier):
             if type(docs[0]) is type(docs[1]):
                 break
             docs[1] = gen_container(rng, 3, 3, NAMES)
+        if rng.random() < 0.3:
+            # siblings whose current-node sub-queries differ, next to root / context members the constant parts read
+            docs[0] = rng.choice([
+                {"a": 1, "c": True, "x": {"a": 5, "b": [1, 2], "c": [3]}, "y": {"b": [], "a": 0}, "z": {"b": [7], "c": {"k": 1}, "a": 1}},
+                {"a": 2, "b": [1, 2, 3], "x": {"a": 1, "b": [1]}, "y": {"a": 2, "b": [2, 3], "c": 1}, "c": None},
+                [{"a": 1, "b": [1, 2]}, {"a": 2, "b": []}, {"b": [1], "c": [1]}, 1, "a"],
+            ])
+            if type(docs[0]) is not type(docs[1]):
+                docs[1] = {"a": 1, "b": [5]} if isinstance(docs[0], dict) else [{"a": 1}]
         if rng.random() < 0.6:
             e = gen_cacheable_logical(rng, rng.randint(1, 3))
             pre = Q.gen_segs_for_doc(rng, docs[0], 1) if rng.random() < 0.4 else []
